@@ -8,11 +8,23 @@ use crate::report::{par_run, Report};
 use crate::rng::Rng;
 use serde_json::json;
 
-pub const RULE: &str = "All 22 indicators, periods 1..=8 for every (prefix kind x level x feed form) combination plus sampled larger periods: an active prefix (none = stream start, after-reset, random walk, spikes 1e6x the level, alternating decades) followed by flat stretches (all price fields equal; lengths 3n+3, 100, 1100, 5000) at levels {1e-3,0.1,1,37.5,1e6,-37.5,-1e-3,0 (0 not for ROC/PPO)}, and for bars also zero-volume stretches with moving prices. Judged at every step of a stretch at which the harness's own copy of the window is degenerate (all n, or n+1 for ROC/ER/MFI, prices equal, or zero money flow), and at every step of the stretch for the EMA-based indicators: output finite and inside the documented range; exactly 50 (FAST), 0 (CCI, ROC, TR); MAD <= tau(t)*M; SD <= sqrt(tau(t))*M; BB bands within |k|*sqrt(tau(t))*M of the average. Non-trivial: a stretch preceded by activity (or at stream start / after reset) with >= 1 degenerate-window step; distinct by construction (combination index) .";
+pub const RULE: &str = "All 22 indicators, periods 1..=8 for every (prefix kind x level x feed form) combination plus sampled larger periods: an active prefix (none = stream start, after-reset, 1..n+2 bars then reset, random walk, spikes 1e6x the level, alternating decades) followed by flat stretches (all price fields equal; lengths 3n+3, 100, 1100, 5000) at levels {1e-3,0.1,1,37.5,1e6,-37.5,-1e-3,0 (0 not for ROC/PPO)} plus four seeded levels per combination (two- and four-decimal prices, arbitrary doubles of either sign in 1e-3..1e6), and for bars also zero-volume stretches with moving prices. Judged at every step of a stretch at which the harness's own copy of the window is degenerate (all n, or n+1 for ROC/ER/MFI, prices equal, or zero money flow), and at every step of the stretch for the EMA-based indicators: output finite and inside the documented range; exactly 50 (FAST), 0 (CCI, ROC, TR); MAD <= tau(t)*M; SD <= sqrt(tau(t))*M; BB bands within |k|*sqrt(tau(t))*M of the average. Non-trivial: a stretch preceded by activity (or at stream start / after reset) with >= 1 degenerate-window step; distinct by construction (combination index) .";
 
 /// flat price levels: positive ones of several magnitudes, two negative ones (spreads, de-meaned series)
 /// and exactly zero (the latter not for ROC and PPO, whose formula divides by the price level itself)
 pub const LEVELS: [f64; 8] = [1e-3, 0.1, 1.0, 37.5, 1e6, -37.5, -1e-3, 0.0];
+/// plus seeded levels per scenario ("every flat price level"): whether x - x, x / x or 100 * x / x come out
+/// exact depends on the bits of x, so round levels alone say little
+pub const SEEDED_LEVEL_CLASSES: usize = 4;
+
+pub fn seeded_level(class: usize, rng: &mut Rng) -> f64 {
+    match class {
+        0 => (rng.range(1, 100_000) as f64) / 100.0,          // a two-decimal price 0.01 ..= 1000.00
+        1 => rng.log_uniform(1e-3, 1e6),                      // any double in the band
+        2 => -rng.log_uniform(1e-3, 1e6),
+        _ => (rng.range(1, 1_000_000) as f64) / 10_000.0,     // four decimals (FX quotes)
+    }
+}
 
 #[derive(Clone, Copy, Debug, PartialEq)]
 pub enum Prefix {
@@ -22,6 +34,9 @@ pub enum Prefix {
     Spikes,
     AltDecades,
     Short(usize),
+    /// a few bars (fewer than, equal to or just above the period), then reset(): the stretch starts a new
+    /// stream on an instance whose window was only partly written
+    ShortReset,
 }
 
 fn doc_range(kind: Kind) -> Option<(f64, f64)> {
@@ -114,6 +129,11 @@ pub fn build(p: &Params, bars: bool, prefix: Prefix, level: f64, zero_volume_str
         Prefix::Spikes => mk_active(rng, plen, level, &mut inputs, &mut flags, true, false),
         Prefix::AltDecades => mk_active(rng, plen, level, &mut inputs, &mut flags, false, true),
         Prefix::Short(k) => mk_active(rng, k, level, &mut inputs, &mut flags, false, false),
+        Prefix::ShortReset => {
+            let k = 1 + rng.below(n + 2);
+            mk_active(rng, k, level, &mut inputs, &mut flags, false, false);
+            reset_at = Some(inputs.len());
+        }
     }
     let stretch = |len: usize, inputs: &mut Vec<In>, flags: &mut Vec<bool>, rng: &mut Rng| {
         if zero_volume_stretch && bars {
@@ -282,7 +302,7 @@ pub fn run_scenario(rep: &mut Report, p: &Params, sc: &Scenario, tag: &str) -> u
 
 pub fn run(ctx: &Ctx) -> Report {
     let mut jobs = Vec::new();
-    let prefixes = [Prefix::None, Prefix::AfterReset, Prefix::Walk, Prefix::Spikes, Prefix::AltDecades, Prefix::Short(1), Prefix::Short(2)];
+    let prefixes = [Prefix::None, Prefix::AfterReset, Prefix::Walk, Prefix::Spikes, Prefix::AltDecades, Prefix::Short(1), Prefix::Short(2), Prefix::ShortReset];
     let big: &[usize] = if ctx.quick() { &[14, 50] } else { &[14, 50, 200, 512] };
     let mut idx = 0u64;
     let reps = ctx.pick(3, 60);
@@ -293,8 +313,9 @@ pub fn run(ctx: &Ctx) -> Report {
         }
         for n in periods {
             for (pi, prefix) in prefixes.iter().enumerate() {
-                for (li, level) in LEVELS.iter().enumerate() {
-                    if *level == 0.0 && matches!(kind, Kind::Roc | Kind::Ppo) {
+                for li in 0..LEVELS.len() + SEEDED_LEVEL_CLASSES {
+                    let level = LEVELS.get(li).copied();
+                    if level == Some(0.0) && matches!(kind, Kind::Roc | Kind::Ppo) {
                         continue;
                     }
                     for bars in [false, true] {
@@ -303,7 +324,7 @@ pub fn run(ctx: &Ctx) -> Report {
                         }
                         for _rep in 0..reps {
                             idx += 1;
-                            jobs.push((kind, n, *prefix, *level, bars, idx, pi + li));
+                            jobs.push((kind, n, *prefix, level, li, bars, idx, pi + li));
                         }
                     }
                 }
@@ -312,8 +333,16 @@ pub fn run(ctx: &Ctx) -> Report {
     }
     let seed = ctx.seed;
     let thorough = !ctx.quick();
-    let mut rep = par_run(jobs, ctx.threads, move |(kind, n, prefix, level, bars, idx, alt), rep| {
+    let mut rep = par_run(jobs, ctx.threads, move |(kind, n, prefix, level, li, bars, idx, alt), rep| {
         let mut rng = Rng::derive(seed, 0xC08, *idx);
+        let level = match level {
+            Some(l) => *l,
+            None => {
+                rep.count("seeded_levels");
+                seeded_level(*li - LEVELS.len(), &mut rng)
+            }
+        };
+        let level = &level;
         let p = variant(*kind, *n, *alt);
         // long stretch: long enough for 0.1*(1-alpha)^t to underflow for small n
         let long = match (*idx % 4, *n <= 8) {
@@ -331,6 +360,7 @@ pub fn run(ctx: &Ctx) -> Report {
             Prefix::Spikes => "after_spikes",
             Prefix::AltDecades => "after_alt_decades",
             Prefix::Short(_) => "after_short_prefix",
+            Prefix::ShortReset => "after_short_prefix_and_reset",
         });
         let tag = if zero_vol { format!("{}.zero_volume", tag) } else { tag };
         let j = run_scenario(rep, &p, &sc, &tag);
@@ -344,7 +374,7 @@ pub fn run(ctx: &Ctx) -> Report {
         }
     });
     if ctx.only.is_none() {
-        for key in ["degenerate_window_steps", "ema_based_stretch_steps", "neutral_exact_checked", "stretches_ge_5000", "prefix.after_spikes", "prefix.stream_start", "prefix.after_reset"] {
+        for key in ["degenerate_window_steps", "ema_based_stretch_steps", "neutral_exact_checked", "stretches_ge_5000", "prefix.after_spikes", "prefix.stream_start", "prefix.after_reset", "prefix.after_short_prefix_and_reset", "seeded_levels"] {
             if rep.counters.get(key).copied().unwrap_or(0) == 0 {
                 rep.inconclusive.push(format!("coverage floor missed: {} = 0", key));
             }
